@@ -112,6 +112,10 @@ def build_template(rng, eoe=False):
     if "class" in feats:
         cfg["m"] = {"class_path": "vf.fixtures.zoo.SubA", "init_args": {"a": 4, "b": "q"}}
         nodes.append((("m", "init_args"), "init_args"))
+        if rng.random() < 0.5:
+            # SubA.__init__ has no **kwargs: nothing given below dict_kwargs can reach it, so every key there is foreign
+            cfg["m"]["dict_kwargs"] = {}
+            nodes.append((("m", "dict_kwargs"), "dict_kwargs-of-class-without-var-keyword"))
     if "nested_class" in feats:
         cfg["holder"] = {"class_path": "vf.fixtures.zoo.Holder", "init_args": {"n": 1, "child": {"class_path": "vf.fixtures.zoo.SubB", "init_args": {"c": 0.75, "flag": True}}}}
         nodes += [(("holder", "init_args"), "init_args"), (("holder", "init_args", "child", "init_args"), "init_args-nested")]
